@@ -444,3 +444,80 @@ def norm_closure(rep, T, rid):
                                     f"presentations of one crystal get different normal forms")
         else:
             rep.ok(rid, key)
+
+
+# ----------------------------------------------------------------------------- letters against the reference assignment
+def _lattice(g):
+    """a generic lattice (rows = basis vectors) of the crystal system in the standard setting: Cholesky factor of _metric"""
+    G = np.array([[float(x) for x in row] for row in _metric(g)])
+    return np.linalg.cholesky(G).T.T          # rows a, b, c with a_i . a_j = G_ij
+
+
+def _points(maps, v):
+    return np.array([(np.array(a).reshape(3, 3) @ v + np.array(c) / D) % 1.0 for a, c in maps])
+
+
+def _on_position(maps, p):
+    """does the fractional point p lie on one of the affine images (A v + c, v free) modulo lattice translations?"""
+    for a, c in maps:
+        A = np.array(a, float).reshape(3, 3)
+        pinv = np.linalg.pinv(A)
+        tg = p - np.array(c) / D + _grid / D
+        res = (tg @ pinv.T) @ A.T - tg
+        if np.abs(res).max(axis=1).min() < 1e-5:
+            return True
+    return False
+
+
+def letter_reference(rep, T, rid):
+    """every tabulated position carries the letter that spglib's Wyckoff database gives to a probe orbit placed on it.
+
+    The probes are built from the literal table alone (two general orbits pin group and origin, one orbit on the probed
+    position, all with generic parameters on a generic lattice); only spglib's symmetry finder is evaluated on them -
+    no matid code runs."""
+    import spglib
+    W = T["WYCKOFF_SETS"]
+    vg = [np.array([0.1234, 0.2717, 0.3391]), np.array([0.4183, 0.0629, 0.1957])]
+    vp = np.array([0.0871, 0.1913, 0.2789])
+
+    def field(d, k):
+        return d[k] if isinstance(d, dict) else getattr(d, k)
+    moved = 0
+    for g in range(1, 231):
+        wg = W.get(g, {})
+        if "translations" not in wg:
+            continue
+        try:
+            maps = {L: _pos_maps(wg, L) for L in letters_of(wg)}
+        except (ValueError, KeyError, TypeError):
+            continue        # reported by the orbit obligation
+        gen = max(maps, key=lambda L: (len(maps[L]), L))
+        cell = _lattice(g)
+        base = np.concatenate([_points(maps[gen], v) for v in vg])
+        bnum = [1] * len(maps[gen]) + [2] * len(maps[gen])
+        for L in maps:
+            key = f"WYCKOFF_SETS[{g}][{L!r}].letter"
+            probe = _points(maps[L], vp)
+            pos = np.concatenate([base, probe])
+            num = np.array(bnum + [3] * len(probe))
+            ds = spglib.get_symmetry_dataset((cell, pos, num), symprec=1e-5)
+            number = field(ds, "number") if ds is not None else None
+            if number != g:
+                rep.violation(rid, key, f"a probe orbit on this position (plus two general orbits) is a crystal of group {number}, not {g}")
+                continue
+            got = {str(w) for w in np.array(field(ds, "wyckoffs"))[num == 3]}
+            P, sh = np.array(field(ds, "transformation_matrix")), np.array(field(ds, "origin_shift"))
+            if np.allclose(P, np.eye(3), atol=1e-5) and np.allclose(sh, np.round(sh), atol=1e-5):
+                ok = got == {L}
+            else:
+                # spglib describes the probe with another origin / axes: compare in its coordinates
+                moved += 1
+                ok = len(got) == 1 and next(iter(got)) in maps and _on_position(maps[next(iter(got))], P @ probe[0] + sh)
+            if ok:
+                rep.ok(rid, key)
+            else:
+                rep.violation(rid, key, f"atoms placed on the position tabulated as {L!r} ({wg[L]['expressions'][0] if 'expressions' in wg[L] else ''}) "
+                                        f"are on position {sorted(got)} of the reference Wyckoff database: the letter is wrong, so the "
+                                        "analyzer (which takes the letter from spglib and the coordinates from this table) pairs atoms with "
+                                        "the expressions of another position")
+    rep.count("probes_described_in_a_moved_setting", moved)
